@@ -48,6 +48,8 @@ impl Vm {
                     self.bp = 0;
                     self.ep = usize::MAX;
                     self.acc = VCell::Undefined;
+                    // ... and collect what it allocated, as a finished evaluation does
+                    self.run_gc();
                     return Err(e);
                 }
             }
